@@ -42,10 +42,10 @@ def features(row):
     f = []
     if pipe and " inv " in (hdr + " "):
         f.append("pipeline-inv")
+    one = pipe and t.count(" step ") == 1
     if "omit_" in t:
-        f.append("omit")
-    if pipe and t.count(" step ") == 1:
-        f.append("one-step-pipeline")
+        # a one-step pipeline with a directional step is its own class: the translation must stay a pipeline
+        f.append("one-step-pipeline-with-omit" if one else "omit")
     if re.search(r" a=", hdr) and " rf=" in hdr:
         f.append("global-a-rf")
     elif re.search(r" k=", hdr):
@@ -58,17 +58,14 @@ def features(row):
 
 
 def proj_key(row):
-    """(symptom, layout choices + features of the definition): the minimal sets are reported"""
-    what = row["fails"][0]["what"]
-    if what.startswith("op_") and "_vs_" in what:
-        what = "op_outcome"
-    return what, frozenset([c for c in (row.get("choices") or []) if c] + ["has:" + f for f in features(row)])
+    """layout choices + features of the definition: the minimal sets are reported, whatever the symptom"""
+    return "proj", frozenset([c for c in (row.get("choices") or []) if c] + ["has:" + f for f in features(row)])
 
 
 def signature(sig):
-    what, _, ch = sig.partition("|")
+    _, _, ch = sig.partition("|")
     items = sorted({c[4:] if c.startswith("has:") else "layout:" + c.split("=")[0] for c in ch.split(",") if c})
-    return "proj|%s|%s" % (what, "+".join(items))
+    return "proj|%s" % "+".join(items)
 
 
 def run(tier, seed):
@@ -147,3 +144,22 @@ def replay(path):
         return 1
     print("replay passes on the current tree")
     return 0
+
+
+def selftest(seed):
+    """The binding must bind: a reference text that differs in one value, a corrupted expected operand and a
+    wrongly expected refusal have to be noticed, the uncorrupted record must pass."""
+    vlib.build_harness(synlib.BIN)
+    r = vlib.tlc_must_pass(vlib.tlc("MC_C17", "MC_C17_semq", workers=4, timeout=600, seed=seed))
+    recs = [x for x in proj_records(r["records"], "selftest")
+            if "omit" not in x["proj"] and x["proj"].count(" step ") == 2 and "c=1" in (x["ref"] or "") and x["expect"]]
+    good = dict(recs[0], id="good")
+    bad_ref = dict(recs[0], id="bad_ref", ref=recs[0]["ref"].replace("c=1", "c=2", 1), passthrough=[])
+    bad_exp = json.loads(json.dumps(dict(recs[0], id="bad_exp")))
+    bad_exp["expect"]["F"]["data"][0][0] += 1024
+    bad_refuse = dict(recs[0], id="bad_refuse", refuse=True)
+    sm, rows = synlib.run_suite("proj", "C17-selftest", [good, bad_ref, bad_exp, bad_refuse])
+    got = sorted(w["id"] for w in rows)
+    ok = got == ["bad_exp", "bad_ref", "bad_refuse"]
+    print("selftest:", "corruptions detected, clean record passes" if ok else "NOT as expected: mismatching %s" % got)
+    return 0 if ok else 2
